@@ -20,7 +20,8 @@ Choice points and their answers (answer 0 = default):
   * every wake-up (a wait on the trigger event that really sleeps): an external event, issued by "another thread" after
     a quarter of the sleep, in {none} + per polled module {pollinterval changed to each other value of {0.1, 1, 5} (through
     the real write_pollinterval wrapper -> announceUpdate -> PollInfo.update_interval), setFastPoll(True),
-    setFastPoll(False), pollInfo.trigger(immediate=True)}; default none.
+    setFastPoll(False), pollInfo.trigger(immediate=True)}; default none.  Configurations with the extended event
+    alphabet ('events': 'ext') add setFastPoll(True, 0) per module - an effective interval of exactly 0 at run time.
 All executions with <= 2 non-default answers are enumerated by vf.engines.enumx.explore_deviations (stateless DFS: replay
 forced prefix, then defaults), per configuration = (module layout, (pollinterval, slowinterval) per polled module, clock
 phase, base profile); the thorough tier has more and larger configurations (3 and 4 modules, all interval ratios) and
@@ -28,6 +29,9 @@ phase, base profile); the thorough tier has more and larger configurations (3 an
 thread; 2-4 modules served by the thread of a shared io module (plain, or polled itself with pollinterval 0 / 5);
 parameters polled through read_*, ReadHandler (per key), CommonReadHandler (group), @nopoll (plain and handler), a
 configured writable parameter (writeInitParams).  The horizon of an execution is 3 x the largest interval of the
+'Events only' configurations ('devs': 'events') explore *sequences of external events* (fast on -> interval change -> fast
+off ...): <= 3 deviations, placed at wake-ups only (driver calls keep their default answer and are not deviation points),
+extended event alphabet, horizon EVENT_CAP = 36 choice points.  The horizon of an execution is 3 x the largest interval of the
 configuration in virtual time, and at most CAP (44 quick / 64 thorough) choice points (a saturated thread or fast
 polling would otherwise make one execution arbitrarily long).
 
@@ -66,7 +70,9 @@ Oracle calibration (weaker readings taken, derived by reading __pollThread of th
     "within the new interval after the change" is the statement's wording).
   * pollinterval changed while fast polling: the code keeps the fast interval (update_interval ignores the change); the
     statement does not decide this, so I_new = max(fast interval, new value) is allowed. fast interval = 0.25 (default
-    argument of setFastPoll). trigger(immediate=True) only may make polls earlier; nothing is demanded for it.
+    argument of setFastPoll; 0 after setFastPoll(True, 0)). After fast poll is switched off the interval in effect is the
+    *latest* pollinterval, also when it was changed during fast polling (signature ...after=fast-off-after-interval-change).
+    trigger(immediate=True) only may make polls earlier; nothing is demanded for it.
     Only upper bounds are checked: polling *more often* than the interval (e.g. fast poll never switched off) is not a
     violation of the statement.
   * M2: the multiple is 2 and only *idle* time counts ("refreshed within 2 x slowinterval plus whatever work the
@@ -820,8 +826,8 @@ def run(ctx):
     ctx.rule = (
         'enumeration: per configuration (module layout x (pollinterval, slowinterval) per polled module x clock phase x base '
         'duration profile) every execution of the real Module.__pollThread body in virtual time with <= 2 non-default '
-        'environment answers' + (f' (<= 3 on {len(deep)} small configurations, the 3rd within {b["window"]} choice points after '
-                                 'the 2nd)' if deep else '') +
+        'environment answers' + (f' (<= 3 on {len(deep)} small configurations: the 3rd within {b["window"]} choice points after '
+                                 'the 2nd, or - events-only configurations - all three at wake-ups)' if deep else '') +
         '; choice points = every fake doPoll/read_*/handler read/initialReads/write_* call (3 durations x 5 outcomes) and every '
         'real sleep on the trigger event (external event: none / pollinterval change / fast poll on / off / immediate trigger, '
         f'per polled module); horizon = 3 x largest interval and at most {b["cap"]} choice points. '
@@ -829,7 +835,8 @@ def run(ctx):
         'states = distinct answer sequences; transitions = driver calls + sleeps + events executed')
     ctx.coverage.update(configurations=len(cfgs),
                         bound_completed='<= 2 deviations per execution'
-                        + (f'; <= 3 (3rd within {b["window"]} choice points of the 2nd) on {len(deep)} configurations' if deep else ''),
+                        + (f'; <= 3 on {len(deep)} configurations (3rd within {b["window"]} choice points of the 2nd, or external '
+                           'events only)' if deep else ''),
                         layouts=sorted({c['layout'] for c in cfgs}))
     ctx.assume('durations, outcomes, intervals and events outside the stated alphabets are not covered',
                'external events happen while the thread sleeps (after a quarter of the sleep), never during a driver call',
